@@ -314,6 +314,7 @@ def run_harness(h: Harness, seed=0, tier="quick", shard=None):
     records = []
     nclaim = 0
     reachable = 0
+    failfast = False
     try:
         f = h.build()
     except NotImplementedError as e:
@@ -432,6 +433,22 @@ def run_harness(h: Harness, seed=0, tier="quick", shard=None):
                     rec["replay"] = dict(confirmed=True, note="definedness side condition", model={k: str(v) for k, v in res["model"].items() if "!" not in k})
                 else:
                     rp = replay(h, f_real, in_vals, aux, None, label, res["model"], ctx)
+                    if not rp.get("confirmed") and kindc == "eq":
+                        # the solver's witness may violate the identity by less than the replay tolerance (e.g. a point
+                        # just inside the affected region): ask for a witness with a margin and replay that one
+                        for margin in (Fraction(1, 10 ** 3), Fraction(1, 10 ** 6)):
+                            d_ = lift(c.lhs) - lift(c.rhs)
+                            weak = z3.And(V.le(d_, Val(margin)), V.ge(d_, Val(-margin)))
+                            if c.guard is not None:
+                                gs = c.guard if isinstance(c.guard, list) else [c.guard]
+                                weak = z3.Implies(z3.And(*[_REL[gk](gl, gr) for (gl, gk, gr) in gs]), weak)
+                            refine = tuple(h.refine(ctx)) if hasattr(h, "refine") else ()
+                            r2 = prove(ctx, weak, min(h.timeout_ms, 30000), extra=extra + refine, with_pc=True)
+                            if r2["status"] == "refuted":
+                                rp2 = replay(h, f_real, in_vals, aux, None, label, r2["model"], ctx)
+                                if rp2.get("confirmed"):
+                                    rp, res = rp2, r2
+                                    break
                     rec["replay"] = rp
                     rec["model"] = {k: str(v) for k, v in res["model"].items() if "!" not in k}
                 if not rec["replay"].get("confirmed"):
@@ -446,9 +463,16 @@ def run_harness(h: Harness, seed=0, tier="quick", shard=None):
                         rec["t"] = round(rec["t"] + r2["t"], 4)
                         break
             records.append(rec)
+            if rec["status"] == "refuted" and os.environ.get("VERIF_FAILFAST"):
+                failfast = True
+                break
         stats["queries"] += ctx.queries
         stats["solver_time"] += ctx.solver_time
         stats["unknown_feas"] += ctx.unknowns
+        if failfast:
+            break
+    from .solve import CROSS
+    stats["cross"] = dict(CROSS)
     if reachable == 0 and stats["cells_skipped"] == 0:
         # reachability twin failed for every cell: the harness proves nothing
         records.append(dict(label="reachability", status="vacuous", harness=h.name, cell="all"))
